@@ -296,7 +296,7 @@ def r3(F, R):
         ds = GT.drains(p)
         ser = [d for d in ds if d[1] == "Serial"]
         con = [d for d in ds if d[1] == "Concurrent"]
-        if ser and GT.outcome_of(p, ser[0][3]) == "None":
+        if ser and GT.gave(p, ser[0]) == "nothing":
             # the serial drain produced nothing: the concurrent queue must be consulted
             looked = any(e[0] == "call" and re.search(r"HashMap::<.*>::get(_mut)?$|HashMap::get(_mut)?$", e[1]) and
                          any(D.is_variant(x, "runner::basic::ScenarioType", "Concurrent") for a in e[2] for x in D.subterms(a))
